@@ -1829,6 +1829,7 @@ class UTPM(Ring, RawAlgorithmsMixIn):
             raise NotImplementedError('non vector inputs are not implemented yet')
 
         N = numpy.size(x)
+        d = int(d)
         Gamma, rays = exint.generate_Gamma_and_rays(N,d)
 
         data = numpy.zeros(numpy.hstack([d+1,rays.shape]))
